@@ -459,9 +459,14 @@ pub fn gen_trace(rng: &mut Rng, input: &[u8], buf: usize, cfg: &TraceCfg) -> Tra
     let mut events: Vec<Ev> = Vec::new();
     let mut intr = |rng: &mut Rng, events: &mut Vec<Ev>, force: bool| {
         if force || (cfg.p_intr_num > 0 && rng.chance(cfg.p_intr_num, 16)) {
-            let burst = match rng.below(6) {
-                0 => rng.urange(3, 5),
-                1 => 2,
+            // Interrupted is transient but a caller may not assume HOW transient: mostly single
+            // faults, sometimes short bursts, rarely long ones (a retry loop that gives up after
+            // 8, 16, 32 or 100 attempts is wrong)
+            let burst = match rng.below(48) {
+                0..=7 => rng.urange(3, 5),
+                8..=15 => 2,
+                16 => rng.urange(6, 40),
+                17 if rng.chance(1, 3) => rng.urange(41, 300),
                 _ => 1,
             };
             for _ in 0..burst {
